@@ -44,8 +44,24 @@ def value_of(x, m):
     return ["ok", fval(x)]
 
 
+# kinds of callables (c14_impl.make_callable): what the serial loop gives for mode 0
+FKINDS = {"fitness": 0, "emcee_wrap": 0, "dynesty_ll": 0, "dynesty_pt": 1000000, "dynesty_other": 4000000, "partial": 2000000,
+          "object": 3000000, "plain": 1000000}
+AKINDS = ["fitness", "emcee_wrap", "dynesty_ll", "arg_dynesty_pt", "arg_partial", "object"]
+
+
+def akind_value(kind, x):
+    """what calling the callable ARGUMENT on [-1, x, 0] gives"""
+    return {"fitness": fval(x), "emcee_wrap": fval(x), "dynesty_ll": fval(x), "arg_dynesty_pt": 3 * x + 1,
+            "arg_partial": fval(x) + 5, "object": fval(x) + 3000000}[kind]
+
+
 def expected_outcome(batch, x, m):
     """what evaluating one input of an smap batch gives (independent of the implementation)"""
+    if batch.get("fkind") and m == 0:
+        return ["ok", fval(x) + FKINDS[batch["fkind"]]]
+    if batch.get("akind") and m == 0:
+        return ["ok", 10 * akind_value(batch["akind"], x) + batch["apos"]]
     if batch.get("scalar"):
         return ["ok", fval(x) if x < 100 else 500000 + (x - 100)]
     if m in (1, 2, 3):
@@ -181,6 +197,28 @@ def gen_smap_vals(rng, cyc):
     return {"kind": "smap", "procs": procs, "batches": batches, "shape": "values"}
 
 
+def gen_smap_kinds(rng, j):
+    """one pool, a history of maps with DIFFERENT kinds of callables: as the mapped function (the likelihood in its three
+    guises, and callables that are not the likelihood: dynesty-wrapped prior transform, dynesty wrapper of another name,
+    partial, callable object, plain function) and as one of the arguments; case j of a run starts the cycle at kind j, so
+    every kind occurs in every run"""
+    procs = rng.choice([1, 2, 2, 3, 4])
+    fk = sorted(FKINDS)
+    batches = []
+    for t in range(3):
+        size = rng.choice([1, 2, 3, 4, 5])
+        jobs = [[rng.randrange(40), 1 if rng.random() < 0.1 else 0] for _ in range(size)]
+        b = {"jobs": jobs, "sched": sched_for(rng, size, procs)}
+        if t == 1:
+            b["akind"] = AKINDS[j % len(AKINDS)]
+            b["apos"] = rng.choice([0, 1, 2, 3])
+        else:
+            b["fkind"] = fk[(2 * j + (t // 2) * 3) % len(fk)]
+        batches.append(b)
+    rng.shuffle(batches)
+    return {"kind": "smap", "procs": procs, "batches": batches, "shape": "callables"}
+
+
 def gen_numbering(rng):
     """a history of job constructions: explicit numbers (0 included, out of order, repeated), jobs without a number and
     SneakyJobs (both draw from the class-level counter)"""
@@ -221,10 +259,23 @@ def gen_smap_free(rng):
     return {"kind": "smap_free", "procs": procs, "batches": batches}
 
 
-def gen_init(rng, thorough):
+def gen_init(rng, thorough, again=False, unusual=False):
+    c = gen_init1(rng, thorough, unusual)
+    if again:
+        c["again"] = gen_init1(rng, thorough, unusual)
+        c["again"].pop("kind")
+    return c
+
+
+def gen_init1(rng, thorough, unusual=False):
     n = rng.choice([1, 2, 2, 3, 3, 4])
     total = rng.randint(1, 6)
     vals = rng.sample(range(1, 900), 40)
+    if unusual:
+        # figures of merit that are falsy or negative: 0 (-> 0.0) among the first points drawn, negatives elsewhere
+        total = max(total, 2)
+        vals = [-v if rng.random() < 0.5 else v for v in vals]
+
     stream = []
     valid = 0
     err_p = rng.choice([0, 0, 0, 0.05, 0.15])
@@ -238,6 +289,10 @@ def gen_init(rng, thorough):
         else:
             stream.append(["ok", vals[len(stream)]])
             valid += 1
+    if unusual:
+        first = [i for i, (kd, _) in enumerate(stream) if kd == "ok"]
+        if first:
+            stream[first[0] if len(first) < 2 or rng.random() < 0.5 else first[1]] = ["ok", 0]
     scheds = []
     for _ in range(len(stream)):
         order = list(range(n))
@@ -393,6 +448,12 @@ FIXED_CASES = [
         {"jobs": [[5, 3], [6, 0]], "sched": [["F", 1], ["F", 0]]},
         {"jobs": [[7, 0], [8, 0]], "sched": [["F", 0], ["F", 1]]},
         {"jobs": [[100, 0], [104, 0], [3, 0], [101, 0], [105, 0]], "scalar": True, "sched": [["F", 1], ["F", 1], ["F", 0], ["F", 0], ["F", 0]]}]},
+    # kinds of callables: the dynesty-wrapped prior transform is NOT the likelihood (as function and as argument)
+    {"kind": "smap", "procs": 2, "shape": "callables", "batches": [
+        {"jobs": [[5, 0], [6, 0], [7, 0]], "fkind": "dynesty_pt", "sched": [["F", 1], ["F", 0], ["F", 0]]},
+        {"jobs": [[5, 0], [6, 0]], "fkind": "dynesty_ll", "sched": [["F", 1], ["F", 0]]},
+        {"jobs": [[8, 0], [9, 0]], "akind": "arg_dynesty_pt", "apos": 1, "sched": [["F", 1], ["F", 0]]},
+        {"jobs": [[8, 0], [9, 1], [4, 0]], "akind": "dynesty_ll", "apos": 3, "sched": [["F", 0], ["F", 1], ["F", 0]]}]},
     {"kind": "jobs", "cores": 3, "jobs": [[1, 0], [2, 0], [3, 0]], "nums": [2, 0, 1], "sched": [["T", 1], ["T", 0], ["P"], ["T", 1], ["P"]]},
     {"kind": "jobs", "cores": 3, "jobs": [[1, 0], [5, 3], [0, 2]], "sched": [["T", 1], ["T", 0], ["P"], ["T", 1], ["P"]]},
     {"kind": "numbering", "specs": [None, 0, "sneaky", 0, 3, None, 1]},
@@ -410,10 +471,11 @@ def gen_cases(ctx):
     cases += [gen_smap(rng, thorough) for _ in range(80 * k)]
     cyc = Cycle(rng)
     cases += [gen_smap_vals(rng, cyc) for _ in range(12 * k)]      # >= 12 unusual values... per run; Cycle covers all of them
+    cases += [gen_smap_kinds(rng, j) for j in range(8 * k)]          # 8 function kinds x 2, 6 argument kinds: all in every run
     cases += [gen_jobs_seq(rng, cyc) for _ in range(6 * k)]
     cases += [gen_numbering(rng) for _ in range(5 * k)]
     cases += [gen_sneakier(rng, "two-maps"), gen_sneakier(rng, "reenter")]
-    cases += [gen_init(rng, thorough) for _ in range(36 * k)]
+    cases += [gen_init(rng, thorough, again=(j % 6 == 5), unusual=(j % 3 == 1)) for j in range(36 * k)]
     cases += [gen_emcee(rng) for _ in range(10 * k)]
     cases += [gen_jobs_case(rng, thorough, cyc, force=[None, None, None, "perm", "vals", "fail"][j % 6]) for j in range(50 * k)]
     cases += [gen_smap_free(rng) for _ in range(6 * k)]
@@ -505,6 +567,12 @@ def oracle(c, r):
             out.append(("evaluation counts %s" % r["evals"], []))
         if any(r["pend"]) or any(r["resq"]):
             out.append(("left behind: %s %s" % (r["pend"], r["resq"]), []))
+        return out
+    if k == "init" and c.get("again") and "again" in r:
+        out = oracle({kk: v for kk, v in c.items() if kk != "again"}, r)
+        out += [("second samples_from_model call on the same initializer object: " + m, cl) for m, cl in oracle(dict(c["again"], kind="init"), r["again"])]
+        if r["again"].get("pools") != 1:
+            out.append(("the second call created %s pools of its own (a fresh SneakyPool per call)" % r["again"].get("pools"), []))
         return out
     if k == "init":
         stream = c["stream"]
@@ -718,6 +786,8 @@ def coq_case(c, r):
         b = {"yields": r["log_prob"], "raised": None, "pend": r["pend"], "resq": r["resq"],
              "evals": [r["evals"][i] for i in c["order"]]}
         return "CSmap %s %s %s %s" % (fx, cnat(c["procs"]), clist([cpair(outs, c_sched(c["sched"]))]), clist([c_obs(b)]))
+    if k == "init" and c.get("again") and "again" in r:
+        return [coq_case({kk: v for kk, v in c.items() if kk != "again"}, r), coq_case(dict(c["again"], kind="init"), r["again"])]
     if k == "init":
         stream = clist([cpair(cZ(i), point_outcome(kd, v)) for i, (kd, v) in enumerate(c["stream"])])
         scheds = clist([c_sched(s) for s in c["scheds"]])
@@ -874,7 +944,16 @@ def run(ctx):
                 "included; (*_free, emcee_run, jobs_race, sneakier) the same entry points and SneakierPool free-running under the OS "
                 "scheduler (sleeps, 1.2 MB results), oracle only. A case is non-trivial when at least two workers and two jobs are "
                 "involved; distinct = distinct abstract program, where programs of the ordered blocking map that differ only in "
-                "their P actions (no-ops there) count once")
+                "their P actions (no-ops there) count once. Hardening sweep (every seed, by construction; distributions in the "
+                "histograms): (values) 12 histories of three maps on one pool -- results that are falsy / None / numpy scalars / 0-d "
+                "and 1-element arrays / nan / -0.0 (20 kinds, all covered), user exceptions of 8 kinds (no args, falsy object, "
+                "carrying `number`/`result`, ZeroDivisionError ...) followed by a clean batch, plain scalar arguments of 12 kinds "
+                "(0, 0.0, -0.0, False, None, numpy scalars); (jobs) every 6th case with job numbers that are not the queue order, "
+                "with unusual results, with an unusual exception; (jobs_seq) histories of 2-3 run_jobs calls in one process with "
+                "unnumbered jobs built in between; (numbering) histories of job constructions with an explicit 0 after the "
+                "class-level counter has moved; (init) every 3rd case with figures of merit 0 and negative, every 6th case ONE "
+                "initializer object used for two calls with another fitness / n_cores / total; (sneakier) one pool with two maps in "
+                "one with-block, one pool entered twice")
     ctx.trusted = [
         "Coq 8.16.1 kernel incl. vm_compute",
         "correspondence harness c14.py / impl/c14_impl.py: schedule steering by per-worker semaphore gates (inside the evaluated "
@@ -900,6 +979,12 @@ def run(ctx):
         "which exception a map with several failing inputs raises: the LAST failing input's (model, theorem and oracle agree); "
         "serial evaluation would stop at the first",
     ]
+    ctx.assumptions.append(
+        "hardening sweep, outside the quantifier (not generated): public attributes of the fitness object changed between two maps "
+        "of one SneakyPool (the workers hold the copy forked at construction: by design, every in-tree caller builds the pool per "
+        "fit); a second GridSearch.fit / Sensitivity.run on the same object (resume of completed fits: C06/C16); arguments that are "
+        "strings or 0-d arrays (SneakyJob hands the function list(args), serial evaluation would see the original container); "
+        "priors / ids (class 4) do not occur in the anchored code -- the analogue, job NUMBER vs queue POSITION, is generated")
     ctx.notes["map_model"] = "fixed" if MAP_FIXED else "current (completion order)"
     import time as _t
     _t0 = _t.time()
@@ -948,6 +1033,10 @@ def run(ctx):
                     ctx.hist("unusual_result(run_jobs)", x % N_UNUSUAL)
                 if m == 3:
                     ctx.hist("exception_kind(run_jobs)", x % N_EXC)
+        if c["kind"] == "init":
+            ctx.hist("initializer_history", "one object, two calls (n %d -> %d)" % (c["n"], c["again"]["n"]) if c.get("again") else "single call")
+            if any(kd == "ok" and v <= 0 for kd, v in c["stream"]):
+                ctx.hist("initializer_values", "zero" if ["ok", 0] in c["stream"] else "negative")
         if c["kind"] == "jobs_seq":
             ctx.hist("run_jobs_history", "%d calls, workers %s" % (len(c["calls"]), [x["cores"] - 1 for x in c["calls"]]))
         if c["kind"] == "numbering":
@@ -963,6 +1052,10 @@ def run(ctx):
                         ctx.hist("exception_kind(map)", x % N_EXC)
                     if b.get("scalar") and x >= 100:
                         ctx.hist("scalar_argument_kind", x - 100)
+                if b.get("fkind"):
+                    ctx.hist("mapped_callable_kind", b["fkind"])
+                if b.get("akind"):
+                    ctx.hist("callable_argument_kind", "%s@%d" % (b["akind"], b["apos"]))
                 if bi and any(j[1] in (1, 3) for j in c["batches"][bi - 1]["jobs"]) and not any(j[1] in (1, 3) for j in b["jobs"]):
                     ctx.hist("map_history", "clean batch after a failed one")
         if c["kind"] in ("smap", "smap_free"):
@@ -1033,11 +1126,18 @@ MANIFEST = {
             "serial order; the initializer returns the valid points of a stream prefix with their own values for any number of "
             "cores. vm_compute correspondence of the model with the real pools and with the real GridSearch.fit / Sensitivity.run "
             "under deterministically steered schedules, plus a direct property oracle (also free-running: emcee sampling, 1.2 MB "
-            "results, run_jobs stress, SneakierPool). The behaviour before the two repairs is kept as refuted statements.",
+            "results, run_jobs stress, SneakierPool). The behaviour before the two repairs is kept as refuted statements. "
+            "Hardening sweep: run_jobs on jobs queued in any order of their numbers gives ResultBuilder / sorted results in number "
+            "order (C14_jobs_keyed_any_numbering); explicit job numbers do not depend on the class-level job counter "
+            "(C14_numbering_history_free, slip `number or next` refuted); SneakierPool's class-global FunctionCache as a state "
+            "machine with an explicit cache policy: install-at-enter right for every history, the code's policy right for "
+            "in-tree uses only and refuted for two pools / a re-entered pool; generator: unusual results (20 kinds), user "
+            "exception kinds (8), scalar argument kinds (12), histories of maps / run_jobs calls / initializer calls / job "
+            "constructions, all in every quick run.",
     "note": "Trusted: Coq kernel + vm_compute, the steering harness (semaphore gates, proxies around the parent-side queues; code "
             "under test unmodified), FIFO/no-loss semantics of multiprocessing.Queue. Schedules are atomic interleavings; worker "
-            "death, abandoned generators and MPI pools are out of scope (stated in the evidence). Known finding: "
-            "sneakier-two-pools-constructed; fixed in /repo and pinned by regression obligations: sneaky-map-completion-order "
+            "death, abandoned generators and MPI pools are out of scope (stated in the evidence). Known findings: "
+            "sneakier-two-pools-constructed, sneakier-reentered-after-exit (one proposed fix for both); fixed in /repo and pinned by regression obligations: sneaky-map-completion-order "
             "(c80ac95), run-jobs-startup-race (67a753d), grid-parallel-failing-cell (74ff428), job-pickling-race (e882fb2).",
     "technique": "machine-checked proof in Coq (schedule-quantified transition systems) + vm_compute correspondence under steered schedules",
 }
